@@ -92,7 +92,7 @@ static int call_api(int api, int s, const void *from, MPT_TYPE(type) t, void *de
 /* ------------------------------------------------------------ monitoring -- */
 static struct {
 	uint64_t calls, accepted, refused, compared, refused_unrepresentable, refused_representable,
-	         float_checked, query_agree, vector_ok, junk_refused, refusal_wrote, code_differs;
+	         float_checked, query_agree, vector_ok, junk_refused, refusal_wrote, code_differs, null_source;
 } cnt;
 static c07_stats jst;
 static char keybuf[96];
@@ -109,7 +109,9 @@ static const char *mkkey(int api, const char *what)
  */
 static void evaluate(int api, int s, const void *from, int tclass, MPT_TYPE(type) tcode, uint8_t *dest, size_t dsize, const char *fname)
 {
-	num v = rd(s, from);
+	/* a NULL source address is the library's "zero / default of that type" (every converter reads it as 0) */
+	static const uint8_t zeros[16];
+	num v = rd(s, from ? from : zeros);
 	int rp, rq, wrote = 0;
 	size_t k;
 	char ctx[200];
@@ -123,8 +125,9 @@ static void evaluate(int api, int s, const void *from, int tclass, MPT_TYPE(type
 	if (vf_logging) {
 		vf_log("%s src %c=%s target 0x%zx -> perform %d, query %d%s", fname, s, numstr(nbuf1, v), (size_t) tcode, rp, rq, wrote ? " (destination written)" : "");
 	}
-	snprintf(ctx, sizeof(ctx), "%s: source %c %s, target '%c' (0x%zx)", fname, s, numstr(nbuf1, v),
+	snprintf(ctx, sizeof(ctx), "%s: source %c %s%s, target '%c' (0x%zx)", fname, s, numstr(nbuf1, v), from ? "" : " (NULL address)",
 	         (tcode >= 0x20 && tcode < 0x7f) ? (int) tcode : '?', (size_t) tcode);
+	if (!from) cnt.null_source++;
 
 	if (rp >= 0) cnt.accepted++; else { cnt.refused++; if (wrote) cnt.refusal_wrote++; }
 
@@ -147,7 +150,7 @@ static void evaluate(int api, int s, const void *from, int tclass, MPT_TYPE(type
 		cnt.junk_refused++;
 		return;
 	}
-	if (tclass == TOwnVec && rp >= 0) {
+	if (tclass == TOwnVec && rp >= 0 && from) {
 		struct iovec vec;
 		memcpy(&vec, dest, sizeof(vec));
 		VF_CHECK(vec.iov_base == from && vec.iov_len == tsize(s), mkkey(api, "vector-not-over-source"),
@@ -315,7 +318,78 @@ static uint64_t cases_per_pair(void)
 	for (i = 0; i < NSRC; i++) n += (uint64_t) blocks_of(SRC[i]);
 	return n;
 }
-uint64_t vf_cases(void) { return (uint64_t) NAPI * NTGT * cases_per_pair(); }
+#define NDEG 2
+uint64_t vf_cases(void) { return (uint64_t) NAPI * NTGT * cases_per_pair() + NDEG; }
+
+/*
+ * degenerate but admissible struct value states: strings (empty, NULL pointer,
+ * no address) and vectors (empty iovec, no address) as sources of every
+ * target.  They denote no number: only "query and performing call agree, no
+ * fault, an accepted text/vector target is empty" is asserted.
+ */
+static void case_degenerate(int api)
+{
+	static const char *empty = "";
+	static const char *nullstr = 0;
+	static const struct iovec noiov = { 0, 0 };
+	struct { MPT_TYPE(type) type; const void *addr; const char *what; } src[64];
+	MPT_TYPE(type) tgt[40];
+	int ns = 0, nt = 0, i, j;
+	uint64_t agreed = 0, accepted = 0, number_from_empty = 0;
+
+	src[ns].type = 's'; src[ns].addr = &empty; src[ns++].what = "string \"\"";
+	src[ns].type = 's'; src[ns].addr = &nullstr; src[ns++].what = "string NULL";
+	src[ns].type = 's'; src[ns].addr = 0; src[ns++].what = "string without address";
+	for (i = 0; i < NSRC; i++) {
+		src[ns].type = MPT_type_toVector(SRC[i]); src[ns].addr = &noiov; src[ns++].what = "empty vector";
+		src[ns].type = MPT_type_toVector(SRC[i]); src[ns].addr = 0; src[ns++].what = "vector without address";
+	}
+	src[ns].type = MPT_ENUM(TypeVector); src[ns].addr = &noiov; src[ns++].what = "empty generic vector";
+	src[ns].type = MPT_ENUM(TypeVector); src[ns].addr = 0; src[ns++].what = "generic vector without address";
+	for (i = 0; i < NSCAL; i++) tgt[nt++] = (MPT_TYPE(type)) TGT[i];
+	if (api == 2) {
+		tgt[nt++] = 's'; tgt[nt++] = MPT_ENUM(TypeVector); tgt[nt++] = MPT_type_toVector('c'); tgt[nt++] = MPT_type_toVector('d');
+		tgt[nt++] = 0;   /* stands for: the source's own type */
+	}
+	vf_fp_u64(0xde9 + (uint64_t) api);
+	for (i = 0; i < ns; i++) {
+		for (j = 0; j < nt; j++) {
+			MPT_TYPE(type) t = tgt[j] ? tgt[j] : src[i].type;
+			size_t ds = tsize((int) t) ? tsize((int) t) : (t == 's' ? sizeof(char *) : sizeof(struct iovec));
+			uint8_t *dest = vf_xalloc(ds);
+			int rp, rq;
+			memset(dest, SENT, ds);
+			vf_at(apiname[api]);
+			rp = call_api(api, (int) src[i].type, src[i].addr, t, dest);
+			rq = call_api(api, (int) src[i].type, src[i].addr, t, 0);
+			if (vf_logging) vf_log("%s: %s (type 0x%zx) -> target 0x%zx: perform %d, query %d", apiname[api], src[i].what, (size_t) src[i].type, (size_t) t, rp, rq);
+			VF_CHECK((rp >= 0) == (rq >= 0), mkkey(api, "query-differs"), "%s: %s (type 0x%zx) to target 0x%zx: with destination %d, without destination %d",
+			         apiname[api], src[i].what, (size_t) src[i].type, (size_t) t, rp, rq);
+			agreed++;
+			if (rp >= 0) {
+				accepted++;
+				if (tsize((int) t)) number_from_empty++;
+				else if (t == 's') {
+					const char *p;
+					memcpy(&p, dest, sizeof(p));
+					VF_CHECK(!p || !*p, mkkey(api, "empty-source-not-empty"), "%s: %s converted to 's' gives a non-empty text", apiname[api], src[i].what);
+				}
+				else {
+					struct iovec v;
+					memcpy(&v, dest, sizeof(v));
+					VF_CHECK(!v.iov_len, mkkey(api, "empty-source-not-empty"), "%s: %s converted to vector 0x%zx gives %zu bytes", apiname[api], src[i].what, (size_t) t, v.iov_len);
+				}
+			}
+			vf_xfree(dest, ds);
+		}
+	}
+	vf_count("monitor:degenerate-source-query-compared", agreed);
+	vf_count("eval:degenerate-source-accepted", accepted);
+	vf_count("observe:number-from-empty-source", number_from_empty);
+	vf_count(apiname[api], 2 * agreed);
+	vf_nontrivial();
+	vf_sample("%s: %d degenerate sources (empty/NULL strings, empty vectors, values without address) x %d targets, query vs perform", apiname[api], ns, nt);
+}
 
 static const MPT_TYPE(type) junk_types[] = { 'h', 0, 'a', 'z', 'g', 'j', 'm', 'o', 'p', 'r', 'v', 'w', 0x7f, 0x3f, 0x1f, 0x2, 0xc0, 0x7ff, 0x1000, (MPT_TYPE(type)) -1 };
 #define NJUNK ((int) (sizeof(junk_types) / sizeof(*junk_types)))
@@ -323,7 +397,9 @@ static const MPT_TYPE(type) junk_types[] = { 'h', 0, 'a', 'z', 'g', 'j', 'm', 'o
 void vf_case(uint64_t idx, vf_rng *r)
 {
 	uint64_t per = cases_per_pair(), rest;
-	int api = (int) (idx / (NTGT * per));
+	int api;
+	if (idx >= (uint64_t) NAPI * NTGT * per) { case_degenerate(2 + (int) (idx - (uint64_t) NAPI * NTGT * per)); return; }
+	api = (int) (idx / (NTGT * per));
 	int tclass, si, s, block, i;
 	MPT_TYPE(type) tcode;
 	size_t dsize;
@@ -398,6 +474,11 @@ void vf_case(uint64_t idx, vf_rng *r)
 				if (api == 3 && !tcode) tcode = 'h';
 			}
 			evaluate(api, s, from, tclass, tcode, dest, dsize, fname);
+			/* the same conversion from a value without data address: must behave like an explicit zero */
+			if (i % 97 == 0) {
+				if (tclass == TJunk) { tcode = junk_types[(block + i + 1) % NJUNK]; if (api == 3 && !tcode) tcode = 'h'; }
+				evaluate(api, s, 0, tclass, tcode, dest, dsize, fname);
+			}
 			h = (h ^ vals[i][0] ^ ((uint64_t) vals[i][7] << 8)) * 0x100000001b3ULL;
 		}
 		vf_fp_u64(((uint64_t) api << 40) ^ ((uint64_t) tclass << 32) ^ ((uint64_t) s << 16) ^ (uint64_t) block);
@@ -417,6 +498,7 @@ void vf_case(uint64_t idx, vf_rng *r)
 	vf_count("monitor:refused-not-representable", jst.refused_unrepresentable);
 	vf_count("observe:refused-although-representable", jst.refused_representable);
 	vf_count("monitor:vector-over-source", cnt.vector_ok);
+	vf_count("eval:null-address-source", cnt.null_source);
 	vf_count("monitor:unknown-target-refused", cnt.junk_refused);
 	vf_count("observe:refusal-wrote-destination", cnt.refusal_wrote);
 	vf_count("observe:query-code-differs", cnt.code_differs);
